@@ -2,7 +2,7 @@
 import os
 import re
 
-from engine import cc, cfg, lib
+from engine import facts, cc, cfg, lib
 from engine.auto import Explorer, fmt_trace, cond_shape
 from engine.facts import erase, short_loc, CACHE
 from engine.lib import qe
@@ -478,7 +478,7 @@ int main() {}
 
 
 def c11f(ctx):
-    path = os.path.join(CACHE, "gen", "c11_types.cpp")
+    path = os.path.join(facts.gen_dir(), "c11_types.cpp")
     os.makedirs(os.path.dirname(path), exist_ok=True)
     with open(path, "w") as fh:
         fh.write(WITNESS)
